@@ -17,7 +17,7 @@ import (
 // requests in flight is at most the total limit and, per path, at most the per-endpoint limit": the wrapped do function
 // counts. Recorded like a connection run (op "conn", transport "churn").
 func runChurn(l, el int, d time.Duration) ConnRec {
-	r := ConnRec{Op: "conn", Transport: "churn", L: l, EL: el}
+	r := ConnRec{Op: "conn", Transport: "churn", L: l, EL: el, Idle: true}
 	const paths = 3
 	var total, maxTotal atomic.Int64
 	var per, maxPer [paths]atomic.Int64
